@@ -403,9 +403,24 @@ _install_ext()
 # -- spec vocabulary over raw inputs ---------------------------------------------
 def _rx(self, e, fr):
     v = self.ev(e.args[0], fr)
+    if is_num(v):
+        # a plain number passed where a feature input is expected (ADWINAccuracy forwards its indicator): a 0-d input
+        cols = self.ctx.sort("Cols")
+        return SOpaque("RawX", None, {"is_df": z3.BoolVal(False), "ndim": z3.IntVal(0), "d0": z3.IntVal(0), "d1": z3.IntVal(0),
+                                      "cols": z3.Const("cols!none", cols),
+                                      "vals": z3.K(INT, z3.K(INT, to_real(v))) if False else _const2(to_real(v))})
     if not (isinstance(v, SOpaque) and v.sort == "RawX"):
         raise Unsupported("expected a raw X input, got %r" % (v,))
     return v
+
+
+def _const2(t):
+    return z3.K(z3.TupleSort("idx2", [INT, INT])[0], t) if False else _K2(t)
+
+
+def _K2(t):
+    i, j = z3.Ints("i!k2 j!k2")
+    return z3.Lambda([i, j], t)
 
 
 def _spec_is_df(self, e, fr):
